@@ -167,13 +167,40 @@ class Transport(Suite):
                     seg["cuts"] = sorted(rng.sample(bs, min(len(bs), rng.randrange(1, 4))))
                 segs.append(seg)
             out.append({"segments": segs})
+        # the SAME rejection 2, 3, 4 times in a row, then a version with batching and the same batch again; a rejected
+        # batch after a good message and before one
+        b = line([VALID[0], INVALID[0], VALID[1]])
+        for k in (2, 3, 4):
+            out.append({"segments": [{"set": "2025-06-18", "items": [line(VALID[2])] + [b] * k + [line(VALID[3])], "cuts": []},
+                                     {"set": "2025-03-26", "items": [b, line(VALID[2])], "cuts": []},
+                                     {"set": "2025-06-18", "items": [b] * k, "cuts": []}]})
+        # non-default connection options crossed with rejection / acceptance
+        for server in ({"env": {"LOG_LEVEL": "ERROR"}}, {"env": {"LOGGING_LEVEL": "CRITICAL"}, "args": ["--quiet"]}):
+            for v in ("2025-06-18", "2025-03-26"):
+                out.append({"segments": [{"set": v, "items": mixed, "cuts": []}], "server": server})
+        # two and three connections alive at once at DIFFERENT versions receiving the SAME lines (equal ids): each obeys its own
+        n0 = len(out)
+        for g, vs3 in enumerate((("2025-06-18", "2025-03-26", "2025-06-18"), ("2024-11-05", "2025-06-18", None), ("2025-06-18", "2025-06-18", "2025-03-26"))):
+            grp = [{"segments": [{"set": v, "items": mixed, "cuts": []}, {"items": [b, b], "cuts": []}]} for v in vs3]
+            for c in grp:
+                out.append(dict(c, **{"with": [o for o in grp if o is not c]}))
+        # a host with DEBUG logging configured
+        for i, c in enumerate(out):
+            if i % 4 == 1:
+                c["debug"] = True
         return out
 
     # ------------------------------------------------------------------ implementation
     def impl_batch(self, cases):
         from .. import stdio_h
 
-        return stdio_h.run_reader_cases([{"events": events_of(c), "opts": c.get("opts", {})} for c in cases])
+        def harness_case(c):
+            h = dict({"events": events_of(c), "opts": c.get("opts", {})}, **{k: c[k] for k in ("debug", "server") if k in c})
+            if c.get("with"):
+                h["with"] = [harness_case(w) for w in c["with"]]
+            return h
+
+        return stdio_h.run_reader_cases([harness_case(c) for c in cases])
 
     # ------------------------------------------------------------------ model
     def model_line(self, case):
